@@ -32,7 +32,10 @@ Record istop := mkIStop {
   is_windows : list (Z * Z);     (* start time windows, seconds, as given *)
   is_max_wait : option Z;
   is_penalty : Z;                (* unplanned_penalty *)
-  is_attrs : list nat            (* compatibility attributes *)
+  is_attrs : list nat;           (* compatibility attributes *)
+  is_target : option Z;          (* target_arrival_time *)
+  is_early_pen : Z;              (* early_arrival_time_penalty *)
+  is_late_pen : Z                (* late_arrival_time_penalty *)
 }.
 
 Record ivehicle := mkIVehicle {
@@ -47,7 +50,9 @@ Record ivehicle := mkIVehicle {
   iv_attrs : list nat;
   iv_activation : Z;             (* activation_penalty *)
   iv_has_start : bool;           (* start_location present *)
-  iv_has_end : bool
+  iv_has_end : bool;
+  iv_min_stops : Z;              (* min_stops (0 when absent) *)
+  iv_min_stops_pen : Z           (* min_stops_penalty *)
 }.
 
 (* a precedence unit: connected component of the precedes/succeeds graph *)
@@ -63,7 +68,9 @@ Record options := mkOptions {
   o_dis_start_time : bool; o_dis_durations : bool;
   (* objective factors; 0 switches the term off (factory appends a term only when > 0) *)
   o_f_activation : Z; o_f_travel : Z; o_f_vehicles_duration : Z; o_f_unplanned : Z;
-  o_dis_dgroups : bool           (* duration groups disabled: group durations count as 0 *)
+  o_dis_dgroups : bool;          (* duration groups disabled: group durations count as 0 *)
+  (* more objective factors: early arrival, late arrival, min stops, stop balance *)
+  o_f_early : Z; o_f_late : Z; o_f_min_stops : Z; o_f_stop_balance : Z
 }.
 
 (* a user-supplied constraint (C19): an exact check with an estimate that
@@ -104,9 +111,9 @@ Definition is_first_stop (inp : input) (s : nat) : bool :=
 Definition is_last_stop (inp : input) (s : nat) : bool :=
   negb (is_input_stop inp s) && Nat.odd (s - nstops inp).
 
-Definition dflt_stop : istop := mkIStop [] 0 [] None 0 [].
+Definition dflt_stop : istop := mkIStop [] 0 [] None 0 [] None 0 0.
 Definition dflt_vehicle : ivehicle :=
-  mkIVehicle None [] 0 None None None None None [] 0 true true.
+  mkIVehicle None [] 0 None None None None None [] 0 true true 0 0.
 Definition get_stop (inp : input) (s : nat) : istop := nth s (in_stops inp) dflt_stop.
 Definition get_vehicle (inp : input) (v : nat) : ivehicle := nth v (in_vehicles inp) dflt_vehicle.
 
@@ -492,13 +499,59 @@ Definition obj_activation (inp : input) (s : state) : Z :=
   sumZ (map (fun vr => if route_empty (snd vr) then 0 else iv_activation (fst vr))
             (combine (in_vehicles inp) (st_routes s))).
 
+(* early / late arrival (model_objective_earliness.go, lateness of the latest
+   objective): stops with a target arrival time.  Early: the stops strictly
+   between first and last; late: every stop behind the first one. *)
+Definition stop_target (inp : input) (x : nat) : option Z :=
+  if is_input_stop inp x then is_target (get_stop inp x) else None.
+Definition inner_cells (r : list cell) : list cell := removelast (tl r).
+Definition early_of (inp : input) (c : cell) : Z :=
+  match stop_target inp (c_stop c) with
+  | Some t => is_early_pen (get_stop inp (c_stop c)) * Z.max 0 (t - c_arrival c)
+  | None => 0
+  end.
+Definition late_of (inp : input) (c : cell) : Z :=
+  match stop_target inp (c_stop c) with
+  | Some t => is_late_pen (get_stop inp (c_stop c)) * Z.max 0 (c_arrival c - t)
+  | None => 0
+  end.
+Definition obj_early (inp : input) (s : state) : Z :=
+  sumZ (map (fun r => sumZ (map (early_of inp) (inner_cells r))) (st_routes s)).
+Definition obj_late (inp : input) (s : state) : Z :=
+  sumZ (map (fun r => sumZ (map (late_of inp) (tl r))) (st_routes s)).
+
+(* min stops (model_objective_min_stops.go): quadratic in the shortfall, empty
+   vehicles are free; stop balance (model_objective_stop_balance.go): the
+   largest number of stops on one vehicle *)
+Definition route_nstops (r : list cell) : Z := Z.of_nat (length r - 2).
+Definition obj_min_stops (inp : input) (s : state) : Z :=
+  sumZ (map (fun vr =>
+              let v := fst vr in let n := route_nstops (snd vr) in
+              if (n =? 0) || (iv_min_stops v =? 0) || (iv_min_stops_pen v =? 0) then 0
+              else if n <? iv_min_stops v then iv_min_stops_pen v * (iv_min_stops v - n) * (iv_min_stops v - n) else 0)
+            (combine (in_vehicles inp) (st_routes s))).
+Definition obj_stop_balance (inp : input) (s : state) : Z :=
+  fold_right Z.max 0 (map route_nstops (st_routes s)).
+
+(* which of these terms the factory installs *)
+Definition has_early (inp : input) : bool :=
+  existsb (fun st => match is_target st with Some _ => negb (is_early_pen st =? 0) | None => false end) (in_stops inp).
+Definition has_late (inp : input) : bool :=
+  existsb (fun st => match is_target st with Some _ => negb (is_late_pen st =? 0) | None => false end) (in_stops inp).
+Definition has_min_stops (inp : input) : bool :=
+  existsb (fun v => negb (iv_min_stops v =? 0) && negb (iv_min_stops_pen v =? 0)) (in_vehicles inp).
+
 Definition score_terms (inp : input) (s : state) : list Z :=
   let o := in_opts inp in
   (if (0 <? o_f_activation o) && existsb (fun v => negb (iv_activation v =? 0)) (in_vehicles inp)
    then [o_f_activation o * obj_activation inp s] else []) ++
   (if 0 <? o_f_travel o then [o_f_travel o * obj_travel_duration inp s] else []) ++
   (if 0 <? o_f_vehicles_duration o then [o_f_vehicles_duration o * obj_vehicles_duration inp s] else []) ++
-  (if 0 <? o_f_unplanned o then [o_f_unplanned o * obj_unplanned inp s] else []).
+  (if 0 <? o_f_unplanned o then [o_f_unplanned o * obj_unplanned inp s] else []) ++
+  (if (0 <? o_f_early o) && has_early inp then [o_f_early o * obj_early inp s] else []) ++
+  (if (0 <? o_f_late o) && has_late inp then [o_f_late o * obj_late inp s] else []) ++
+  (if (0 <? o_f_min_stops o) && has_min_stops inp then [o_f_min_stops o * obj_min_stops inp s] else []) ++
+  (if 0 <? o_f_stop_balance o then [o_f_stop_balance o * obj_stop_balance inp s] else []).
 
 Definition refresh_scores (inp : input) (s : state) : state :=
   let t := score_terms inp s in
